@@ -185,7 +185,8 @@ fn run_forward_impl(text: &str, n_rules_expected: usize, store: &Store, max_cycl
         let runaway = runaway.clone();
         let pass_bound = max_cycles + 1;
         verif_hooks::set_event_observer(Some(Box::new(move |ev| {
-            let Event::ForwardPass { .. } = ev;
+            #[allow(irrefutable_let_patterns)]
+            let Event::ForwardPass { .. } = ev else { return };
             passes.set(passes.get() + 1);
             if passes.get() > pass_bound {
                 runaway.set("more passes than max_cycles + 1");
@@ -366,7 +367,8 @@ impl FwdSession {
         let pass_bound = self.max_cycles + 1;
         let fire_bound = self.max_cycles.saturating_mul(self.n.max(1)) + 1;
         verif_hooks::set_event_observer(Some(Box::new(move |ev| {
-            let Event::ForwardPass { .. } = ev;
+            #[allow(irrefutable_let_patterns)]
+            let Event::ForwardPass { .. } = ev else { return };
             let p = PASSES.with(|p| {
                 p.set(p.get() + 1);
                 p.get()
